@@ -65,7 +65,8 @@ Inductive oop :=
 | OUpdateHostSet (client : N) (height : Z) (entries : list (N * N * Z))   (* addr, key, voting power *)
 | OSetExecs (l : list N)
 | OSetInfo (i : option binfo)
-| OCreatePair (cp : N).
+| OCreatePair (cp : N)
+| ORemovePair (cp : N).      (* x/oracle RemoveCurrencyPair: the pair and its quote are deleted *)
 
 (* ---- record updates ---- *)
 Definition set_quotes (s : ostate) (q : gmap N (option quote)) : ostate :=
@@ -229,6 +230,13 @@ Definition create_pair (s : ostate) (cp : N) : option ostate :=
   | None => Some (set_quotes s (<[cp := None]> (quotes s)))
   end.
 
+(* x/oracle RemoveCurrencyPair (an environment step of the oracle module, not an opchild message) *)
+Definition remove_pair (s : ostate) (cp : N) : option ostate :=
+  match quotes s !! cp with
+  | None => None
+  | Some _ => Some (set_quotes s (delete cp (quotes s)))
+  end.
+
 Definition handle (s : ostate) (o : oop) : option ostate :=
   match o with
   | OUpdateOracle blk sender height commit => update_oracle s blk sender height commit
@@ -236,6 +244,7 @@ Definition handle (s : ostate) (o : oop) : option ostate :=
   | OSetExecs l => Some (set_execs s l)
   | OSetInfo i => Some (set_info s i)
   | OCreatePair cp => create_pair s cp
+  | ORemovePair cp => remove_pair s cp
   end.
 
 (* [step] returns the unchanged state on error *)
